@@ -1645,6 +1645,12 @@ void Circuit::optimizeSubnet(Subnet &subnet)
 }
 
 
+#ifdef GATERY_VERIF
+// Verification hook (guarded, default off): called after every post-processing pass with the pass name.
+void (*verif_passBoundary)(const char *pass, Circuit &circuit) = nullptr;
+#define GTRY_VERIF_PASS(name) do { if (::gtry::hlim::verif_passBoundary) ::gtry::hlim::verif_passBoundary(name, circuit); } while (0)
+#endif
+
 void Circuit::postprocess(const PostProcessor &postProcessor)
 {
 	dbg::changeState(dbg::State::POSTPROCESS, this);
@@ -1675,32 +1681,101 @@ void Circuit::postprocess(const PostProcessor &postProcessor)
 void DefaultPostprocessing::generalOptimization(Circuit &circuit) const
 {
 	circuit.insertConstUndefinedNodes();
+#ifdef GATERY_VERIF
+	GTRY_VERIF_PASS("DefaultPostprocessing.generalOptimization.insertConstUndefinedNodes");
+#endif
 	Subnet subnet = Subnet::all(circuit);
 	circuit.disconnectZeroBitConnections();
+#ifdef GATERY_VERIF
+	GTRY_VERIF_PASS("DefaultPostprocessing.generalOptimization.disconnectZeroBitConnections");
+#endif
 	circuit.disconnectZeroBitOutputPins();
+#ifdef GATERY_VERIF
+	GTRY_VERIF_PASS("DefaultPostprocessing.generalOptimization.disconnectZeroBitOutputPins");
+#endif
 	defaultValueResolution(circuit, subnet);
+#ifdef GATERY_VERIF
+	GTRY_VERIF_PASS("DefaultPostprocessing.generalOptimization.defaultValueResolution");
+#endif
 	circuit.cullUnusedNodes(subnet); // Dirty way of getting rid of default nodes
+#ifdef GATERY_VERIF
+	GTRY_VERIF_PASS("DefaultPostprocessing.generalOptimization.cullUnusedNodes");
+#endif
 
 	circuit.propagateConstants(subnet);
+#ifdef GATERY_VERIF
+	GTRY_VERIF_PASS("DefaultPostprocessing.generalOptimization.propagateConstants");
+#endif
 	circuit.ensureEntityPortSignalNodes();
+#ifdef GATERY_VERIF
+	GTRY_VERIF_PASS("DefaultPostprocessing.generalOptimization.ensureEntityPortSignalNodes");
+#endif
 	circuit.cullOrphanedSignalNodes();
+#ifdef GATERY_VERIF
+	GTRY_VERIF_PASS("DefaultPostprocessing.generalOptimization.cullOrphanedSignalNodes");
+#endif
 	circuit.cullUnnamedSignalNodes();
+#ifdef GATERY_VERIF
+	GTRY_VERIF_PASS("DefaultPostprocessing.generalOptimization.cullUnnamedSignalNodes");
+#endif
 	circuit.cullSequentiallyDuplicatedSignalNodes();
+#ifdef GATERY_VERIF
+	GTRY_VERIF_PASS("DefaultPostprocessing.generalOptimization.cullSequentiallyDuplicatedSignalNodes");
+#endif
 	subnet = Subnet::all(circuit);
 	circuit.mergeRewires(subnet);
+#ifdef GATERY_VERIF
+	GTRY_VERIF_PASS("DefaultPostprocessing.generalOptimization.mergeRewires");
+#endif
 	circuit.optimizeRewireNodes(subnet);
+#ifdef GATERY_VERIF
+	GTRY_VERIF_PASS("DefaultPostprocessing.generalOptimization.optimizeRewireNodes");
+#endif
 	circuit.cullMuxConditionNegations(subnet);
+#ifdef GATERY_VERIF
+	GTRY_VERIF_PASS("DefaultPostprocessing.generalOptimization.cullMuxConditionNegations");
+#endif
 	//circuit.breakMutuallyExclusiveMuxChains(subnet);
 	circuit.mergeMuxes(subnet);
+#ifdef GATERY_VERIF
+	GTRY_VERIF_PASS("DefaultPostprocessing.generalOptimization.mergeMuxes");
+#endif
 	circuit.removeIrrelevantComparisons(subnet);
+#ifdef GATERY_VERIF
+	GTRY_VERIF_PASS("DefaultPostprocessing.generalOptimization.removeIrrelevantComparisons");
+#endif
 	circuit.removeIrrelevantMuxes(subnet);	
+#ifdef GATERY_VERIF
+	GTRY_VERIF_PASS("DefaultPostprocessing.generalOptimization.removeIrrelevantMuxes");
+#endif
 	circuit.mergeBinaryMuxChain(subnet);
+#ifdef GATERY_VERIF
+	GTRY_VERIF_PASS("DefaultPostprocessing.generalOptimization.mergeBinaryMuxChain");
+#endif
 	circuit.removeNoOps(subnet);
+#ifdef GATERY_VERIF
+	GTRY_VERIF_PASS("DefaultPostprocessing.generalOptimization.removeNoOps");
+#endif
 	circuit.foldRegisterMuxEnableLoops(subnet);
+#ifdef GATERY_VERIF
+	GTRY_VERIF_PASS("DefaultPostprocessing.generalOptimization.foldRegisterMuxEnableLoops");
+#endif
 	circuit.removeConstSelectMuxes(subnet);
+#ifdef GATERY_VERIF
+	GTRY_VERIF_PASS("DefaultPostprocessing.generalOptimization.removeConstSelectMuxes");
+#endif
 	circuit.propagateConstants(subnet); // do again after muxes are removed
+#ifdef GATERY_VERIF
+	GTRY_VERIF_PASS("DefaultPostprocessing.generalOptimization.propagateConstants");
+#endif
 	circuit.cullUnusedNodes(subnet);
+#ifdef GATERY_VERIF
+	GTRY_VERIF_PASS("DefaultPostprocessing.generalOptimization.cullUnusedNodes");
+#endif
 	circuit.removeDisabledWritePorts(subnet);
+#ifdef GATERY_VERIF
+	GTRY_VERIF_PASS("DefaultPostprocessing.generalOptimization.removeDisabledWritePorts");
+#endif
 /*
 	{
 			DotExport exp("before_resolving_retiming.dot");
@@ -1711,6 +1786,9 @@ void DefaultPostprocessing::generalOptimization(Circuit &circuit) const
 
 	subnet = Subnet::all(circuit);
 	determineNegativeRegisterEnables(circuit, subnet);
+#ifdef GATERY_VERIF
+	GTRY_VERIF_PASS("DefaultPostprocessing.generalOptimization.determineNegativeRegisterEnables");
+#endif
 	/*
 	{
 			DotExport exp("neg_reg_enables.dot");
@@ -1720,6 +1798,9 @@ void DefaultPostprocessing::generalOptimization(Circuit &circuit) const
 	*/
 
 	resolveRetimingHints(circuit, subnet);
+#ifdef GATERY_VERIF
+	GTRY_VERIF_PASS("DefaultPostprocessing.generalOptimization.resolveRetimingHints");
+#endif
 	/*
 	{
 			DotExport exp("before_resolving.dot");
@@ -1728,7 +1809,13 @@ void DefaultPostprocessing::generalOptimization(Circuit &circuit) const
 	}
 	*/
 	annihilateNegativeRegisters(circuit, subnet);
+#ifdef GATERY_VERIF
+	GTRY_VERIF_PASS("DefaultPostprocessing.generalOptimization.annihilateNegativeRegisters");
+#endif
 	bypassRetimingBlockers(circuit, subnet);
+#ifdef GATERY_VERIF
+	GTRY_VERIF_PASS("DefaultPostprocessing.generalOptimization.bypassRetimingBlockers");
+#endif
 /*
 	{
 			DotExport exp("after_general_optimization.dot");
@@ -1737,25 +1824,55 @@ void DefaultPostprocessing::generalOptimization(Circuit &circuit) const
 	}
 */
 	attributeFusion(circuit);
+#ifdef GATERY_VERIF
+	GTRY_VERIF_PASS("DefaultPostprocessing.generalOptimization.attributeFusion");
+#endif
 }
 
 void DefaultPostprocessing::memoryDetection(Circuit &circuit) const
 {
 	findMemoryGroups(circuit);
+#ifdef GATERY_VERIF
+	GTRY_VERIF_PASS("DefaultPostprocessing.memoryDetection.findMemoryGroups");
+#endif
 	circuit.cullUnnamedSignalNodes();
+#ifdef GATERY_VERIF
+	GTRY_VERIF_PASS("DefaultPostprocessing.memoryDetection.cullUnnamedSignalNodes");
+#endif
 
 	Subnet subnet = Subnet::all(circuit);
 	circuit.cullUnusedNodes(subnet); // do again after memory group extraction with potential register retiming
+#ifdef GATERY_VERIF
+	GTRY_VERIF_PASS("DefaultPostprocessing.memoryDetection.cullUnusedNodes");
+#endif
 }
 
 void DefaultPostprocessing::exportPreparation(Circuit &circuit) const
 {
 	circuit.moveClockDriversToTop();
+#ifdef GATERY_VERIF
+	GTRY_VERIF_PASS("DefaultPostprocessing.exportPreparation.moveClockDriversToTop");
+#endif
 	circuit.ensureSignalNodePlacement();
+#ifdef GATERY_VERIF
+	GTRY_VERIF_PASS("DefaultPostprocessing.exportPreparation.ensureSignalNodePlacement");
+#endif
 	circuit.ensureMultiDriverNodePlacement();
+#ifdef GATERY_VERIF
+	GTRY_VERIF_PASS("DefaultPostprocessing.exportPreparation.ensureMultiDriverNodePlacement");
+#endif
 	circuit.ensureNoLiteralComparison();
+#ifdef GATERY_VERIF
+	GTRY_VERIF_PASS("DefaultPostprocessing.exportPreparation.ensureNoLiteralComparison");
+#endif
 	circuit.ensureChildNotReadingTristatePin();
+#ifdef GATERY_VERIF
+	GTRY_VERIF_PASS("DefaultPostprocessing.exportPreparation.ensureChildNotReadingTristatePin");
+#endif
 	circuit.inferSignalNames();
+#ifdef GATERY_VERIF
+	GTRY_VERIF_PASS("DefaultPostprocessing.exportPreparation.inferSignalNames");
+#endif
 }
 
 
@@ -1768,11 +1885,17 @@ void DefaultPostprocessing::run(Circuit &circuit) const
 	const TechnologyMapping* techMapping = m_techMapping ? m_techMapping : &fallbackMapping;
 
 	techMapping->apply(circuit, circuit.getRootNodeGroup(), true);
+#ifdef GATERY_VERIF
+	GTRY_VERIF_PASS("DefaultPostprocessing.run.techMapping");
+#endif
 
 	generalOptimization(circuit);
 	memoryDetection(circuit);
 
 	techMapping->apply(circuit, circuit.getRootNodeGroup(), false);
+#ifdef GATERY_VERIF
+	GTRY_VERIF_PASS("DefaultPostprocessing.run.techMapping");
+#endif
 	generalOptimization(circuit); // Because we ran frontend code for tech mapping
 
 	exportPreparation(circuit);
@@ -1785,42 +1908,108 @@ void MinimalPostprocessing::generalOptimization(Circuit& circuit) const
 {
 	Subnet subnet = Subnet::all(circuit);
 	circuit.disconnectZeroBitConnections();
+#ifdef GATERY_VERIF
+	GTRY_VERIF_PASS("MinimalPostprocessing.generalOptimization.disconnectZeroBitConnections");
+#endif
 	circuit.disconnectZeroBitOutputPins();
+#ifdef GATERY_VERIF
+	GTRY_VERIF_PASS("MinimalPostprocessing.generalOptimization.disconnectZeroBitOutputPins");
+#endif
 	defaultValueResolution(circuit, subnet);
+#ifdef GATERY_VERIF
+	GTRY_VERIF_PASS("MinimalPostprocessing.generalOptimization.defaultValueResolution");
+#endif
 	circuit.cullUnusedNodes(subnet); // Dirty way of getting rid of default nodes
+#ifdef GATERY_VERIF
+	GTRY_VERIF_PASS("MinimalPostprocessing.generalOptimization.cullUnusedNodes");
+#endif
 
 	subnet = Subnet::all(circuit);
 	determineNegativeRegisterEnables(circuit, subnet);
+#ifdef GATERY_VERIF
+	GTRY_VERIF_PASS("MinimalPostprocessing.generalOptimization.determineNegativeRegisterEnables");
+#endif
 	resolveRetimingHints(circuit, subnet);
+#ifdef GATERY_VERIF
+	GTRY_VERIF_PASS("MinimalPostprocessing.generalOptimization.resolveRetimingHints");
+#endif
 	annihilateNegativeRegisters(circuit, subnet);
+#ifdef GATERY_VERIF
+	GTRY_VERIF_PASS("MinimalPostprocessing.generalOptimization.annihilateNegativeRegisters");
+#endif
 	bypassRetimingBlockers(circuit, subnet);
+#ifdef GATERY_VERIF
+	GTRY_VERIF_PASS("MinimalPostprocessing.generalOptimization.bypassRetimingBlockers");
+#endif
 
 	circuit.ensureEntityPortSignalNodes();
+#ifdef GATERY_VERIF
+	GTRY_VERIF_PASS("MinimalPostprocessing.generalOptimization.ensureEntityPortSignalNodes");
+#endif
 	circuit.cullOrphanedSignalNodes();
+#ifdef GATERY_VERIF
+	GTRY_VERIF_PASS("MinimalPostprocessing.generalOptimization.cullOrphanedSignalNodes");
+#endif
 	circuit.cullUnnamedSignalNodes();
+#ifdef GATERY_VERIF
+	GTRY_VERIF_PASS("MinimalPostprocessing.generalOptimization.cullUnnamedSignalNodes");
+#endif
 	subnet = Subnet::all(circuit);
 	circuit.cullUnusedNodes(subnet);
+#ifdef GATERY_VERIF
+	GTRY_VERIF_PASS("MinimalPostprocessing.generalOptimization.cullUnusedNodes");
+#endif
 
 	attributeFusion(circuit);
+#ifdef GATERY_VERIF
+	GTRY_VERIF_PASS("MinimalPostprocessing.generalOptimization.attributeFusion");
+#endif
 }
 
 void MinimalPostprocessing::memoryDetection(Circuit& circuit) const
 {
 	findMemoryGroups(circuit);
+#ifdef GATERY_VERIF
+	GTRY_VERIF_PASS("MinimalPostprocessing.memoryDetection.findMemoryGroups");
+#endif
 	circuit.cullUnnamedSignalNodes();
+#ifdef GATERY_VERIF
+	GTRY_VERIF_PASS("MinimalPostprocessing.memoryDetection.cullUnnamedSignalNodes");
+#endif
 
 	Subnet subnet = Subnet::all(circuit);
 	circuit.cullUnusedNodes(subnet); // do again after memory group extraction with potential register retiming
+#ifdef GATERY_VERIF
+	GTRY_VERIF_PASS("MinimalPostprocessing.memoryDetection.cullUnusedNodes");
+#endif
 }
 
 void MinimalPostprocessing::exportPreparation(Circuit& circuit) const
 {
 	circuit.moveClockDriversToTop();
+#ifdef GATERY_VERIF
+	GTRY_VERIF_PASS("MinimalPostprocessing.exportPreparation.moveClockDriversToTop");
+#endif
 	circuit.ensureSignalNodePlacement();
+#ifdef GATERY_VERIF
+	GTRY_VERIF_PASS("MinimalPostprocessing.exportPreparation.ensureSignalNodePlacement");
+#endif
 	circuit.ensureMultiDriverNodePlacement();
+#ifdef GATERY_VERIF
+	GTRY_VERIF_PASS("MinimalPostprocessing.exportPreparation.ensureMultiDriverNodePlacement");
+#endif
 	circuit.ensureNoLiteralComparison();
+#ifdef GATERY_VERIF
+	GTRY_VERIF_PASS("MinimalPostprocessing.exportPreparation.ensureNoLiteralComparison");
+#endif
 	circuit.ensureChildNotReadingTristatePin();
+#ifdef GATERY_VERIF
+	GTRY_VERIF_PASS("MinimalPostprocessing.exportPreparation.ensureChildNotReadingTristatePin");
+#endif
 	circuit.inferSignalNames();
+#ifdef GATERY_VERIF
+	GTRY_VERIF_PASS("MinimalPostprocessing.exportPreparation.inferSignalNames");
+#endif
 }
 
 
@@ -1832,10 +2021,16 @@ void MinimalPostprocessing::run(Circuit& circuit) const
 
 
 	mapping.apply(circuit, circuit.getRootNodeGroup(), true);
+#ifdef GATERY_VERIF
+	GTRY_VERIF_PASS("MinimalPostprocessing.run.techMapping");
+#endif
 	generalOptimization(circuit);
 	memoryDetection(circuit);
 
 	mapping.apply(circuit, circuit.getRootNodeGroup(), false);
+#ifdef GATERY_VERIF
+	GTRY_VERIF_PASS("MinimalPostprocessing.run.techMapping");
+#endif
 	generalOptimization(circuit); // Because we ran frontend code for tech mapping
 
 	exportPreparation(circuit);
